@@ -22,22 +22,31 @@ def mk(ca: bool, cb: bool, pa: bool, pb: bool):
     child = SymbolTable(parent=parent)
     rp, rc = {}, {}
     if pa:
-        parent['A'] = SymbolAttributes(T[2])
+        parent['A'] = SymbolAttributes(T[2], intent='in')
         rp['a'] = 2
     if pb:
         parent['b'] = SymbolAttributes(T[3])
         rp['b'] = 3
     if ca:
-        child['a'] = SymbolAttributes(T[0])
+        child['a'] = SymbolAttributes(T[0], intent='out')
         rc['a'] = 0
     if cb:
-        child['B(2)'] = SymbolAttributes(T[1])
+        child['B(2)'] = SymbolAttributes(T[1], intent='inout')
         rc['b'] = 1
     return parent, child, rp, rc
 
 
+INTENT = {0: 'out', 1: 'inout', 2: 'in', 3: None}   # extra attribute per pre-state entry: must travel with its entry only
+
+
 def tag(attr):
-    return None if attr is None else T.index(attr.dtype)
+    """fingerprint of an entry: the type tag; entries of the pre-state also carry a distinguishing intent, new ones none"""
+    if attr is None:
+        return None
+    t = T.index(attr.dtype)
+    if attr.intent != INTENT.get(t):
+        return ('foreign-attributes', t, attr.intent)
+    return t
 
 
 def state_ok(parent, child, rp, rc):
@@ -127,7 +136,7 @@ def st_update(ca: bool, cb: bool, pa: bool, pb: bool, k: int, k2: int, aslist: b
     post: _
     """
     parent, child, rp, rc = mk(ca, cb, pa, pb)
-    items = [(POOL[k], SymbolAttributes(T[NEW])), (POOL[k2], SymbolAttributes(T[3]))]
+    items = [(POOL[k], SymbolAttributes(T[NEW])), (POOL[k2], SymbolAttributes(T[3]))]   # T[3]: INTENT[3] is None
     child.update(items if aslist else dict(items))
     rc[CANON[k]] = NEW
     rc[CANON[k2]] = 3
@@ -236,13 +245,13 @@ def st_three_levels(g: bool, p: bool, c: bool, k: int) -> bool:
     t2 = SymbolTable(parent=t1)
     want = None
     if g:
-        t0['A'] = SymbolAttributes(T[2])
+        t0['A'] = SymbolAttributes(T[2], intent='in')
         want = 2
     if p:
-        t1['a(1)'] = SymbolAttributes(T[1])
+        t1['a(1)'] = SymbolAttributes(T[1], intent='inout')
         want = 1
     if c:
-        t2['a'] = SymbolAttributes(T[0])
+        t2['a'] = SymbolAttributes(T[0], intent='out')
         want = 0
     exp = want if CANON[k] == 'a' else None
     return tag(t2.lookup(POOL[k])) == exp
@@ -255,10 +264,10 @@ def mk_scopes(ca: bool, pa: bool):
     cs = Scope(parent=ps)
     rp, rc = {}, {}
     if pa:
-        ps.declare('A', T[2])
+        ps.declare('A', T[2], intent='in')
         rp['a'] = 2
     if ca:
-        cs.declare('a', T[0])
+        cs.declare('a', T[0], intent='out')
         rc['a'] = 0
     return ps, cs, rp, rc
 
@@ -295,7 +304,8 @@ def sc_update(ca: bool, pa: bool, k: int, fail: bool) -> bool:
     if raised != (fail and CANON[k] not in rc):
         return False
     if not raised:
-        rc[CANON[k]] = NEW
+        # update() of an existing local entry keeps that entry's other attributes; a new entry has only what was given
+        rc[CANON[k]] = ('foreign-attributes', NEW, 'out') if CANON[k] in rc else NEW
     return state_ok(ps.symbol_attrs, cs.symbol_attrs, rp, rc)
 
 
